@@ -852,6 +852,16 @@ class Parser(object):
         return tags
 
     def parse_step(self, line):
+        # -- HINT: A step keyword may be the prefix of another step keyword,
+        #    like "Lè " (when) and "Lè sa a " (then) in language "ht".
+        #    Use the longest matching keyword (exact match preferred).
+        best_match_size = 0
+        for step_type in ("given", "when", "then", "and", "but"):
+            for kw in self.keywords[step_type]:
+                if line.startswith(kw) or line.lower().startswith(kw.lower()):
+                    match_size = 2 * len(kw) + int(line.startswith(kw))
+                    best_match_size = max(best_match_size, match_size)
+
         for step_type in ("given", "when", "then", "and", "but"):
             for kw in self.keywords[step_type]:
                 # try to match the keyword; also attempt a purely lowercase
@@ -859,6 +869,9 @@ class Parser(object):
                 if not (line.startswith(kw) or
                         line.lower().startswith(kw.lower())):
                     # -- CASE: Line does not start w/ a step-keyword.
+                    continue
+                if 2 * len(kw) + int(line.startswith(kw)) != best_match_size:
+                    # -- CASE: A longer (or exact) keyword matches, too.
                     continue
 
                 # -- HINT: Trailing SPACE is used for most keywords.
